@@ -118,7 +118,7 @@ def shard(part, shard_i, nshards, tier, seed, deadline):
 def run_part(ctx):
     before = ctx.total.counters.get("executions", 0)
     hs = harnesses(ctx.tier)
-    ctx.sharded(shard, nshards=len(hs))
+    ctx.sharded(shard, nshards=len(hs), deadline=ctx.sub_deadline(0.5))
     ex = ctx.total.counters.get("executions", 0) - before
     ctx.cov["e3_threads"] = {"schedules_explored": ex, "schedule_points": ctx.total.counters.get("schedule_points", 0),
                              "PB": "1" if ctx.tier == "quick" else "2 (n=4: 1)", "harnesses": [h.name for h in hs]}
